@@ -25,3 +25,17 @@ pub(crate) use solver::SchedulingSolution;
 
 #[cfg(test)]
 pub(crate) use batches::PriorityCut;
+
+// Verification hooks (add-only): expose the scheduler internals to `internal::verif`.
+#[cfg(all(feature = "verif", not(test)))]
+#[allow(unused_imports)]
+pub(crate) use batches::PriorityCut;
+#[cfg(all(feature = "verif", not(test)))]
+#[allow(unused_imports)]
+pub(crate) use main::run_scheduling_inner;
+#[cfg(all(feature = "verif", not(test)))]
+#[allow(unused_imports)]
+pub(crate) use mapping::{WorkerTaskMapping, create_task_mapping};
+#[cfg(all(feature = "verif", not(test)))]
+#[allow(unused_imports)]
+pub(crate) use solver::SchedulingSolution;
